@@ -14,10 +14,11 @@ def prop(pid, title, level, units, clauses, explanation, statement_clauses=None,
 
 
 prop("C16", "rustfmt never terminates abnormally", "other",
-     ["U01", "U02", "U03", "U06", {"unit": "U04", "only": r"does not panic|FormatReportFormatter"}, {"unit": "U07", "only": r"does not panic"}, {"unit": "U09", "only": r"does not panic"}, "U28", {"unit": "U18", "only": r"does not panic"}, {"unit": "U30", "only": r"^format_snippet|^format_code_block|^rewrite_macro"}],
+     ["U01", "U02", "U03", "U06", {"unit": "U04", "only": r"does not panic|FormatReportFormatter"}, {"unit": "U07", "only": r"does not panic"}, {"unit": "U09", "only": r"does not panic|push_vertical_spaces_clamp_contract"}, "U28", {"unit": "U18", "only": r"does not panic"}, {"unit": "U30", "only": r"^format_snippet|^format_code_block|^rewrite_macro"}],
      [{"clause": "no arithmetic panic (overflow) in Range::{new,is_empty,contains,intersects,adjacent_to,merge} for any usize", "status": "proved", "by": "U01 (Verus)"},
       {"clause": "no arithmetic panic in FormatLines::{new_line,char,push_err,should_report_error} and the fold (line_len -= 1 never underflows: invariant last_was_space => line_len >= 1) for texts of any length, tab_spaces >= 1", "status": "proved", "by": "U03 (Verus)"},
       {"clause": "no overflow / division by zero in Indent and Shape arithmetic under wf (fields <= 2^32, tab_spaces >= 1); every *_opt turns 'does not fit' into None (is_none <=> delta > width)", "status": "proved", "by": "U06 (Verus; Kani for mut-self fns and the Option::map payloads)"},
+      {"clause": "no arithmetic overflow in the blank-line clamp of push_vertical_spaces for any accepted blank_lines_upper_bound / blank_lines_lower_bound (found F31: usize::MAX panicked; fixed d8db3ac)", "status": "proved", "by": "U09 (Kani, full usize domain)"},
       {"clause": "no panic in normalize_ranges / FileLines queries / FromStr, format_lines, Indent::to_string (80-column buffer seam), push_vertical_spaces on the enumerated domains (overflow checks on, panics caught per case)", "status": "bounded", "by": "U02, U04, U07, U09 (native)"},
       {"clause": "printing the diagnostics (FormatReportFormatter over annotate-snippets) never panics, for every report format_lines can produce on the domain (tabs, multi-byte characters)", "status": "bounded", "by": "U04 (native; whole file format_report_formatter.rs with the real annotate-snippets)"},
       {"clause": "a panic inside the Rust parser (incl. the fatal lexer errors raised while the parser is created) is contained and reported as an ordinary failure of the input", "status": "bounded", "by": "U28 (complete over {ok, diagnostics, panic} x {ok, Err, panic} x error flags)"},
@@ -137,6 +138,7 @@ prop("C08", "Emitted text obeys the whitespace and newline discipline", "other",
       {"clause": "ends with exactly one line terminator: append_newline appends one LF; format_lines truncates a trailing newline run to one", "status": "bounded", "by": "U08 + U04"},
       {"clause": "newline_count equals the length of the trailing newline run for texts of any length (fold invariant)", "status": "proved", "by": "U03 (Verus, see C07)"},
       {"clause": "never more than blank_lines_upper_bound blank lines pushed between items/statements; at least lower_bound; line_number bookkeeping; idempotent", "status": "bounded", "by": "U09 (native; buffers x counts 0..8 x bounds 0..4)"},
+      {"clause": "the clamp arithmetic of push_vertical_spaces for EVERY usize value of the two bounds, the count and the trailing-newline offset: result 0 when the buffer already holds upper+1 newlines, otherwise offset+result <= upper+1, >= min(lower,upper)+1 when below, unchanged inside the bounds; no overflow", "status": "proved", "by": "U09 (Kani, loop-free, full domain; statement slices of the real function)"},
       {"clause": "indentation text: spaces only (hard_tabs off) or block_indent/tab_spaces tabs followed by alignment spaces (hard_tabs on); the 80-column static-buffer seam", "status": "bounded", "by": "U07 (native, exhaustive to 200/400 columns, tab_spaces 1..8)"},
       {"clause": "Indent built by from_width/block_indent/block_unindent keeps block_indent a multiple of tab_spaces and width() as requested", "status": "proved", "by": "U06 (Verus all usize; Kani for the mut-self fns)"},
       {"clause": "does not start with a blank line: skip_empty_lines moves past exactly the maximal run of leading whitespace-only lines before anything is emitted", "status": "bounded", "by": "U27 (real skip_empty_lines / SnippetProvider / find_uncommented with real rustc_span types; all texts <= 6/8 over 5 characters, two base offsets)"},
